@@ -540,6 +540,17 @@ func (root *Root) validateDirUse(where string, loc Location, du *DirectiveUse) (
 		return append(errs, fmt.Errorf("%w, directive @%s can not be applied to %s, a %s at %d:%d",
 			ErrValidation, d.Name(), where, loc, du.line, du.col))
 	}
+	// The parser adds the arguments that are not given, with their default
+	// values, but only if the directive was defined before it is used. A
+	// required argument must not be left out in the other case either.
+	for _, da := range d.args.list {
+		if du.Args[da.N] == nil && da.Default == nil {
+			if _, ok := da.Type.(*NonNull); ok {
+				errs = append(errs, fmt.Errorf("%w, directive argument %s for directive %s on %s is required but missing at %d:%d",
+					ErrValidation, da.N, d.Name(), where, du.line, du.col))
+			}
+		}
+	}
 	var a *Arg
 	// By name so the errors come in the same order every time.
 	names := make([]string, 0, len(du.Args))
